@@ -397,14 +397,16 @@ def _is_sharing_guard(ctx, fi) -> bool:
                     tested = True
     kinds = set()
 
-    def positive_tests(t):
-        """isinstance calls that select a branch positively (not under `not`)"""
+    def positive_tests(t, has_else):
+        """isinstance calls that select a branch of their own: positively, or negated when the statement has both branches"""
         if isinstance(t, ast.BoolOp):
             for v in t.values:
-                yield from positive_tests(v)
+                yield from positive_tests(v, has_else)
+        elif isinstance(t, ast.UnaryOp) and isinstance(t.op, ast.Not) and has_else:
+            yield from positive_tests(t.operand, has_else)
         elif isinstance(t, ast.Call):
             yield t
-    branch_tests = [c for n in ast.walk(node) if isinstance(n, ast.If) for c in positive_tests(n.test)]
+    branch_tests = [c for n in ast.walk(node) if isinstance(n, ast.If) for c in positive_tests(n.test, bool(n.orelse))]
     for n in branch_tests:
         if isinstance(n, ast.Call) and isinstance(n.func, ast.Name) and n.func.id == "isinstance" and len(n.args) == 2:
             for x in ast.walk(n.args[1]):
